@@ -5,6 +5,7 @@ package c17
 import (
 	"context"
 	"encoding/json"
+	"errors"
 	"fmt"
 	"sync/atomic"
 	"testing"
@@ -230,6 +231,8 @@ const (
 
 var stepNames = []string{"Acquire(bg)", "Acquire(cancellable)", "Acquire(done ctx)", "Acquire(1s deadline)", "cancel oldest", "sleep 2s", "holder Release", "spurious Release", "2x Acquire(cancellable) at once", "cancel all"}
 
+var errCustomCause = errors.New("custom cancellation cause")
+
 type acq struct {
 	id       int
 	ctx      context.Context
@@ -287,12 +290,22 @@ func runSema(sc semaScenario) (what string, checks int) {
 			case sAcquireBg:
 				a.ctx, a.cancel = context.WithCancel(context.Background()) // cancelled only at the end
 			case sAcquireCancellable:
-				a.ctx, a.cancel = context.WithCancel(context.Background())
+				// every other one carries a custom cause: Acquire must still return ctx.Err(), not the cause
+				if len(all)%2 == 0 {
+					a.ctx, a.cancel = context.WithCancel(context.Background())
+				} else {
+					cctx, ccancel := context.WithCancelCause(context.Background())
+					a.ctx, a.cancel = cctx, func() { ccancel(errCustomCause) }
+				}
 			case sAcquireDone:
 				a.ctx, a.cancel = context.WithCancel(context.Background())
 				a.cancel()
 			case sAcquireDeadline:
-				a.ctx, a.cancel = context.WithTimeout(context.Background(), time.Second)
+				if len(all)%2 == 0 {
+					a.ctx, a.cancel = context.WithTimeout(context.Background(), time.Second)
+				} else {
+					a.ctx, a.cancel = context.WithTimeoutCause(context.Background(), time.Second, errCustomCause)
+				}
 			}
 			all = append(all, a)
 			go func() {
